@@ -154,7 +154,7 @@ func closureOf(ctx context.Context, r ociregistry.Interface, repo string, dig oc
 		return
 	}
 	var jm struct {
-		Config    *struct{ Digest ociregistry.Digest } `json:"config"`
+		Config    *struct{ Digest ociregistry.Digest }  `json:"config"`
 		Layers    []struct{ Digest ociregistry.Digest } `json:"layers"`
 		Manifests []struct{ Digest ociregistry.Digest } `json:"manifests"`
 	}
